@@ -84,7 +84,9 @@ Fixpoint dict_set (d : list (nat * list nat)) (k : nat) (v : list nat) : list (n
   | (k', v') :: r => if Nat.eqb k' k then (k', v) :: r else (k', v') :: dict_set r k v
   end.
 
-Definition clear_node (nd : node) : node := mkNode (nk nd) (ents nd) FFalse (pars nd) false false.
+(* _is_locked = False.  _is_shared / _is_memmap go through _unset_shared_memmap (D68 repaired): the unlock_() that is running gets
+   them back when it ends up refused, so they are cleared for good only by an unlock_() that goes through — see [unshare] *)
+Definition clear_node (nd : node) : node := mkNode (nk nd) (ents nd) FFalse (pars nd) (shm nd) (mm nd).
 
 Fixpoint punlock (fuel : nat) (h : heap) (n : nat) : option (heap * list nat) :=
   match fuel with
@@ -95,7 +97,7 @@ Fixpoint punlock (fuel : nat) (h : heap) (n : nat) : option (heap * list nat) :=
     | Some nd =>
       match nk nd with
       | KTd =>
-        let h1 := upd h n (clear_node nd) in     (* _is_locked = False; _is_shared = False; _is_memmap = False *)
+        let h1 := upd h n (clear_node nd) in     (* _is_locked = False; self._unset_shared_memmap() *)
         fold_opt (fun (acc : heap * list nat) c =>
                     match punlock f (fst acc) c with
                     | Some (h', sub) => Some (h', snd acc ++ sub ++ [c])
@@ -149,14 +151,25 @@ Fixpoint check_all (fuel : nat) (s : st) (l : list nat) : option (st * bool) :=
 Inductive err := ELock | EKey | EOther.
 Inductive outcome := Done | Raised (e : err) | Invalid.
 
-(* unlock_: propagate, check every sub-tensordict then self; on failure re-lock self and re-raise *)
+(* what _unset_shared_memmap leaves behind on the TensorDicts that _propagate_unlock went through, once the unlock_ is accepted
+   (a lazy stack stores neither flag) *)
+Definition unshare_node (nd : node) : node :=
+  match nk nd with KTd => mkNode (nk nd) (ents nd) (flg nd) (pars nd) false false | KLazy => nd end.
+Fixpoint unshare (h : heap) (l : list nat) : heap :=
+  match l with
+  | [] => h
+  | x :: r => unshare (match lookup h x with Some nd => upd h x (unshare_node nd) | None => h end) r
+  end.
+
+(* unlock_: propagate, check every sub-tensordict then self; on failure re-lock self, restore the shared / memmap flags (they were
+   never dropped here) and re-raise *)
 Definition unlock_ (fuel : nat) (s : st) (n : nat) : option (st * outcome) :=
   match punlock fuel (hp s) n with
   | None => None
   | Some (h1, subs) =>
     match check_all fuel (with_hp s h1) (subs ++ [n]) with
     | None => None
-    | Some (s2, false) => Some (s2, Done)
+    | Some (s2, false) => Some (with_hp s2 (unshare (hp s2) (subs ++ [n])), Done)
     | Some (s2, true) =>
       match lock_ fuel (hp s2) n with
       | None => None
